@@ -386,7 +386,15 @@ fn confirm(cfg: &Cfg, hashers: &[crate::hashers::HKind], specs: &[RunSpec], v: &
     if v.finding.check == "equal_states_have_equal_futures" || v.finding.check == "replay_determinism" {
         return true; // these are about two executions differing; re-execution cannot "reproduce" them pointwise
     }
-    let want = specs.iter().find(|s| s.cfg == *cfg).map(|s| s.want.clone()).unwrap_or_default();
+    let want = specs.iter().find(|s| s.cfg == *cfg && s.hashers == hashers).or_else(|| specs.iter().find(|s| s.cfg == *cfg)).map(|s| s.want.clone()).unwrap_or_default();
+    // A difference seen only on a leg keyed by the real RandomState depends on seeds that cannot be
+    // pinned: it is a genuine observation of the code, so it is re-tried (fresh seeds) rather than
+    // required to reproduce on the first re-execution.
+    let randomised = hashers.contains(&crate::hashers::HKind::Random) && v.finding.check.starts_with("same_");
+    if randomised {
+        let hits = (0..64).filter(|_| reproduce(cfg, hashers, &want, &v.history, v.failing_op, &v.finding, props)).count();
+        return hits > 0;
+    }
     for _ in 0..2 {
         if !reproduce(cfg, hashers, &want, &v.history, v.failing_op, &v.finding, props) {
             return false;
@@ -477,6 +485,9 @@ pub fn replay(path: &str) -> i32 {
             let mine: Vec<&Finding> = found.iter().filter(|f| f.prop == prop).collect();
             if mine.is_empty() {
                 println!("{}: property holds on this replay", prop);
+                if hashers.contains(&crate::hashers::HKind::Random) {
+                    println!("note: this replay has legs keyed by std's RandomState; a difference that depends on its seeds may need several runs to show again");
+                }
                 0
             } else {
                 for f in mine {
